@@ -254,6 +254,7 @@ func genC17(seed int64, tier string) *Scenario {
 	r := rand.New(rand.NewSource(seed))
 	sc := &Scenario{Prop: "C17", Seed: seed, Knobs: map[string]interface{}{}, Sched: Canonical()}
 	sc.Files = c17Workspace(r)
+	sc.Plugin = r.Intn(2) == 0 // the client names its plugin path, as the real one does
 	mode := []string{"filter", "filter", "channel", "history", "json", "json", "hostile", "hostile-json", "first-swallowed", "json-project"}[r.Intn(10)]
 	sc.Knobs["mode"] = mode
 	switch mode {
@@ -427,6 +428,7 @@ func checkC17(t *testing.T, sc *Scenario) *Verdict {
 	v := &Verdict{OK: true}
 	mode, _ := sc.Knobs["mode"].(string)
 	run := func(s *Scenario) *RunResult {
+		s.Plugin = sc.Plugin // every run of one comparison has the same client installation
 		r := Run(t, s, sc.Sched, Hooks{})
 		v.absorb(r)
 		return r
